@@ -186,6 +186,12 @@ def hypothesis_worker(args):
         stats = Stats()
         st = {"t0": time.time(), "fail_t": None, "best": None, "key": None, "harness": None}
 
+        # dev knobs for the sensitivity audit only (never set by the registered commands): stop all shards soon after the
+        # first violation, and shrink for a shorter time
+        failfast = os.environ.get("VERIF_FAILFAST_FLAG")
+        if os.environ.get("VERIF_SHRINK_S"):
+            shrink_s = float(os.environ["VERIF_SHRINK_S"])
+
         @hypothesis.seed(seed * 1009 + shard)
         @settings(max_examples=n_examples, database=None, deadline=None, report_multiple_bugs=False,
                   derandomize=False, suppress_health_check=list(HealthCheck),
@@ -194,6 +200,9 @@ def hypothesis_worker(args):
         def test(spec):
             now = time.time()
             if st["harness"] is not None:
+                return
+            if failfast and st["fail_t"] is None and os.path.exists(failfast):
+                stats.truncated = True
                 return
             if st["fail_t"] is None:
                 if now - st["t0"] > budget_s:
@@ -216,6 +225,8 @@ def hypothesis_worker(args):
                 if st["fail_t"] is None:
                     st["fail_t"] = now
                     st["key"] = bad[0].key
+                    if failfast:
+                        open(failfast, "w").close()
                 same = [p for p in bad if p.key == st["key"]]
                 if same:
                     size = len(canon(spec))
